@@ -4,7 +4,7 @@ import os
 import re
 import shutil
 
-from common import (CACHE, DISCHARGED, FAILED, REPLAYS, REPO, UNDECIDED, VERIF, Ob, log, run)
+from common import (CACHE, DISCHARGED, FAILED, REPLAYS, REPO, UNDECIDED, VERIF, Ob, claim_target_dir, log, run)
 
 # fixed location: the proof modules include these files by absolute path
 PLAYBACK_DIR = os.path.join(VERIF, '.cache', 'playback')
@@ -107,6 +107,7 @@ def classify(status, txt):
 def run_group(features, harnesses, jobs=8):
     """Run all harnesses of one feature configuration. Returns ([Ob], info)."""
     ensure_playback_files()
+    claim_target_dir(os.path.join(CACHE, 'kani-' + cfg_name(features)))
     to = max(h.timeout for h in harnesses)
     cmd = base_cmd(features) + ['--harness-timeout', '%ds' % to, '--output-format', 'terse', '--exact']
     cmd += ['-j', str(min(jobs, len(harnesses)))]
@@ -176,6 +177,7 @@ def playback(h_full, features):
     if features:
         cmd2 += ['--features', features]
     cmd2 += ['--', tname]
+    claim_target_dir(os.path.join(CACHE, 'kani-playback-' + cfg_name(features)))
     rc2, out2, wall2, to2 = run(cmd2, timeout=900,
                                 env={'CARGO_TARGET_DIR': os.path.join(CACHE, 'kani-playback-' + cfg_name(features))})
     ensure_playback_files(reset=True)
